@@ -38,7 +38,13 @@ SCORER_SPECS = [{"cls": "L2Cost"}, {"cls": "L2Cost", "param": 0.5}, {"cls": "Gau
                 {"cls": "LocalAnomalyScore", "cost": {"cls": "GaussianVarCost"}},
                 {"cls": "GaussianCovCost"}, {"cls": "ChangeScore", "cost": {"cls": "GaussianCovCost"}},
                 {"cls": "Saving", "baseline_cost": {"cls": "GaussianCovCost", "param": {"tuple": [0.0, 1.0]}}},
-                {"cls": "LocalAnomalyScore", "cost": {"cls": "GaussianCovCost"}}]
+                {"cls": "LocalAnomalyScore", "cost": {"cls": "GaussianCovCost"}},
+                # fixed parameters given as arrays (the caller's own objects): a nearly singular but valid covariance
+                # (two redundant sensors), per-column means / variances
+                {"cls": "GaussianCovCost", "param": {"tuple": [{"array": [0.0, 0.0]}, {"array": [[1.0, 1.0 - 1e-13], [1.0 - 1e-13, 1.0]]}]}},
+                {"cls": "Saving", "baseline_cost": {"cls": "GaussianCovCost", "param": {"tuple": [{"array": [0.5, -0.5]}, {"array": [[2.0, 2.0], [2.0, 2.0 + 4e-12]]}]}}},
+                {"cls": "GaussianVarCost", "param": {"tuple": [{"array": [0.0, 1.0]}, {"array": [1.0, 1e-9]}]}},
+                {"cls": "L2Cost", "param": {"array": [0.5, -1.5, 2.0]}}]
 SHARE_KEY = {"PELT": "cost", "MovingWindow": "change_score", "SeededBinarySegmentation": "change_score",
              "CircularBinarySegmentation": "anomaly_score", "CAPA": "collective_saving", "MVCAPA": "collective_saving"}
 
@@ -483,6 +489,10 @@ class Interpreter:
         # cuts derived deterministically from the op's seeds: sorted positions in [0, n]
         rows = []
         for seeds in op["cuts"]:
+            if seeds[0] % 3 == 0:
+                # a "popular" cut (whole series, halves, thirds): different scorers are asked for the same segments
+                grid = sorted({0, n // 3, n // 2, (2 * n) // 3, n})
+                seeds = [grid[(seeds[1] + i) % len(grid)] for i in range(4)]
             pos = sorted(int(s) % (n + 1) for s in seeds[:k])
             for i in range(1, len(pos)):  # mostly strictly increasing; equal entries survive at the upper end
                 pos[i] = min(n, max(pos[i], pos[i - 1] + 1))
@@ -846,6 +856,54 @@ def stale_state_histories(draw, tier):
     return {"datasets": datasets, "ops": ops}
 
 
+INTERLEAVED_SPECS = [{"cls": "GaussianCovCost"}, {"cls": "ChangeScore", "cost": {"cls": "GaussianCovCost"}},
+                     {"cls": "LocalAnomalyScore", "cost": {"cls": "GaussianCovCost"}}, {"cls": "GaussianVarCost"}, {"cls": "L2Cost"},
+                     {"cls": "CUSUM"}, {"cls": "L2Saving"}, {"cls": "ChangeScore", "cost": {"cls": "GaussianVarCost"}},
+                     {"cls": "LocalAnomalyScore", "cost": {"cls": "L2Cost"}}, {"cls": "L1Cost"},
+                     {"cls": "Saving", "baseline_cost": {"cls": "GaussianCovCost", "param": {"tuple": [0.0, 1.0]}}}]
+
+
+@st.composite
+def interleaved_scorer_histories(draw, tier):
+    """Two or three stand-alone scorers (often of the same class) are alive at the same time, fitted on *different* data of
+    the same shape, and are asked in turn for the same segments (whole series, halves, thirds) - with clones and refits in
+    between. No scorer may see what another one was fitted on or asked for."""
+    k = draw(st.integers(2, 3))
+    first = draw(st.sampled_from(INTERLEAVED_SPECS))
+    specs = [first] + [first if draw(st.booleans()) else draw(st.sampled_from(INTERLEAVED_SPECS)) for _ in range(k - 1)]
+    p = draw(st.integers(1, 3))
+    n = draw(st.integers(max(12, 4 * (p + 1)), 30))
+    ops = [{"op": "new_scorer", "slot": i, "spec": sp} for i, sp in enumerate(specs)]
+    order = draw(st.permutations(list(range(k))))
+    ops += [{"op": "scorer_fit", "slot": i, "data": i} for i in order]
+    for _ in range(draw(st.integers(3, 8))):
+        what = draw(st.integers(0, 9))
+        slot = draw(st.integers(0, k - 1))
+        if what == 0:
+            ops.append({"op": "scorer_fit", "slot": slot, "data": draw(st.integers(0, k - 1))})
+        elif what == 1:
+            ops.append({"op": "scorer_clone", "src": slot, "dst": draw(st.integers(0, k - 1))})
+        else:
+            # seeds[0] % 3 == 0 selects the grid of popular cuts (see op_evaluate)
+            ops.append({"op": "evaluate", "slot": slot,
+                        "cuts": [[0, draw(st.integers(0, 4)), 0, 0] for _ in range(draw(st.integers(1, 3)))]})
+    datasets = []
+    for _ in range(k):  # bulk data last (see strategies/data.py)
+        X, _ = draw(D.structured_matrix(n, p, exact=False, max_shifts=1, max_spikes=1, max_bumps=1, min_noise_scale=0.5))
+        datasets.append(X)
+    return {"datasets": datasets, "ops": ops}
+
+
+def check_interleaved(case):
+    info = check(case)
+    specs = [op["spec"]["cls"] + ("(" + next((v["cls"] for v in op["spec"].values() if isinstance(v, dict) and "cls" in v), "") + ")")
+             for op in case["ops"] if op["op"] == "new_scorer"]
+    info["classes"] = list(info.get("classes", [])) + (["same_class_twice"] if len(set(specs)) < len(specs) else []) + \
+        sorted({f"scorer={s_}" for s_ in specs})
+    info["nontrivial"] = sum(op["op"] == "evaluate" for op in case["ops"]) >= 2
+    return info
+
+
 def check_stale(case):
     info = check(case)
     det = next(op["spec"]["cls"] for op in case["ops"] if op["op"] == "new_detector")
@@ -863,6 +921,11 @@ FACETS = [
                 "transform_scores on fewer columns; every outcome (value or exception class) must equal that of a freshly built object; "
                 "non-trivial = produces outputs on >= 2 datasets"),
           n_quick=160, n_thorough=3000, shards_quick=4, shards_thorough=8, max_samples=2),
+    Facet(name="interleaved_scorers", check=check_interleaved, strategy=interleaved_scorer_histories,
+          rule=("generated histories: 2-3 stand-alone scorers (11 specs, often the same class twice) alive together, fitted on different data of "
+                "the same shape, then 3-8 steps of evaluate on shared popular segments (whole series, halves, thirds) / refit / clone in "
+                "generated order; every outcome must equal that of a freshly built scorer fitted on the model's data; non-trivial = >= 2 evaluations"),
+          n_quick=200, n_thorough=3000, shards_quick=4, shards_thorough=8, max_samples=2),
     Facet(name="histories", kind="stateful", check=check, machine=make_machine,
           rule=("rule-based state machine: pool of 3-5 generated DataFrames (different n and p, consecutive RangeIndex blocks), up to "
                 "4 detector slots (all seven detectors, optionally constructed around one of 2 shared cost objects), 3 scorer slots; "
